@@ -799,11 +799,23 @@ def _process_step_result_tick(
                 else None
             )
             if retries is not None:
-                _next_params = inspect.signature(retries.next).parameters
-                _seed_kwarg = {"seed": jitter_seed} if "seed" in _next_params else {}
-                delay = retries.next(
-                    elapsed_time, failures, result.exception, **_seed_kwarg
-                )
+                try:
+                    _next_params = inspect.signature(retries.next).parameters
+                    _seed_kwarg = (
+                        {"seed": jitter_seed} if "seed" in _next_params else {}
+                    )
+                    delay = retries.next(
+                        elapsed_time, failures, result.exception, **_seed_kwarg
+                    )
+                except Exception:
+                    # A user-supplied policy must not take down the control loop:
+                    # treat a raising policy as "do not retry" so the step's own
+                    # failure is reported through the normal failure path.
+                    logger.exception(
+                        "retry policy for step %s raised; not retrying",
+                        tick.step_name,
+                    )
+                    delay = None
             else:
                 delay = None
             if delay is not None:
